@@ -85,7 +85,11 @@ def matrix_inverse_root(
 
     # check if matrix is scalar
     if torch.numel(A) == 1:
-        return (A + epsilon) ** torch.as_tensor(-1.0 / root)
+        # A single-element matrix is its own eigenvalue: shift a (slightly) negative entry to zero before adding
+        # epsilon, exactly as the eigendecomposition path does, so that the result is finite and positive.
+        return (A - torch.minimum(A, torch.zeros_like(A)) + epsilon) ** torch.as_tensor(
+            -1.0 / root
+        )
 
     # check matrix shape
     if len(A.shape) != 2:
